@@ -108,8 +108,52 @@ def run_check_scratch(dst, jobs=5):
     return name, res
 
 
+def run_harmless(src, name, props, jobs=8):
+    """a behaviour-preserving patch: keep it as seeded/<name>/ and run the quick checks of `props` against a scratch copy; expected: exit 0 everywhere"""
+    dst = os.path.join(ROOT, 'seeded', name)
+    os.makedirs(dst, exist_ok=True)
+    shutil.copy(os.path.join(src, 'patch.diff'), os.path.join(dst, 'patch.diff'))
+    meta = json.load(open(os.path.join(src, 'meta.json')))
+    meta['property'] = None
+    meta['harmless'] = True
+    d = os.path.join('/tmp/seedrun', name)
+    shutil.rmtree(d, ignore_errors=True)
+    os.makedirs('/tmp/seedrun', exist_ok=True)
+    shutil.copytree('/repo', d, ignore=shutil.ignore_patterns('.git'))
+    rc, out = sh('git apply %s' % os.path.join(dst, 'patch.diff'), cwd=d)
+    if rc != 0:
+        shutil.rmtree(d, ignore_errors=True)
+        raise SystemExit('patch does not apply: ' + out[-300:])
+    rct, outt = sh('timeout 900 /venv/bin/python -m pytest -q -p no:cacheprovider tests 2>&1 | tail -3', cwd=d, env={'PYTHONPATH': d})
+    meta['tests_with_change'] = outt.strip().split('\n')[-1]
+    res = {}
+    for p_ in props:
+        t0 = time.time()
+        rc, out = sh('./check %s --tier quick' % p_, cwd=ROOT, env={'VERIF_REPO': d, 'PYVC_JOBS': str(jobs), 'VERIF_JOBS': str(jobs)}, timeout=3000)
+        viol = [l for l in out.split('\n') if l.startswith('VIOLATION')]
+        und = [l for l in out.split('\n') if l.startswith('UNDECIDED')]
+        detail = [l.strip() for l in out.split('\n') if l.startswith('    ')]
+        res[p_] = {'exit': rc, 'violations': len(viol), 'first': (viol[:1] + detail[:2]), 'undecided': [u[:160] for u in und[:6]], 'wall_s': round(time.time() - t0, 1)}
+        print(name, p_, 'exit', rc, len(viol), 'violations', len(und), 'undecided', res[p_]['wall_s'], 's', flush=True)
+        for l in res[p_]['first']:
+            print('      ', l[:220], flush=True)
+    shutil.rmtree(d, ignore_errors=True)
+    prev = {}
+    try:
+        prev = json.load(open(os.path.join(dst, 'meta.json'))).get('verif', {})
+    except Exception:
+        pass
+    prev.update(res)
+    meta['verif'] = prev
+    json.dump(meta, open(os.path.join(dst, 'meta.json'), 'w'), indent=1)
+    return res
+
+
 if __name__ == '__main__':
     mode = sys.argv[1]
+    if mode == 'harmless':
+        run_harmless(sys.argv[2], sys.argv[3], sys.argv[4:])
+        sys.exit(0)
     if mode == 'prun':
         # parallel re-run on scratch copies: one wave per mutant number so that two runs never share a property (evidence file)
         from concurrent.futures import ThreadPoolExecutor
